@@ -1171,6 +1171,9 @@ class Delegate(TraitType):
     ):
         """ Creates a Delegate trait.
         """
+        metadata["_delegate"] = delegate
+        metadata["_prefix"] = prefix
+
         if prefix == "":
             prefix_type = 0
         elif prefix[-1:] != "*":
@@ -1182,8 +1185,6 @@ class Delegate(TraitType):
             else:
                 prefix_type = 3
 
-        metadata["_delegate"] = delegate
-        metadata["_prefix"] = prefix
         metadata["_listenable"] = listenable
 
         super().__init__(**metadata)
